@@ -16,6 +16,7 @@ import (
 	"path/filepath"
 	"sort"
 	"strings"
+	"syscall"
 	"time"
 
 	vs "github.com/trzsz/trzsz-go/zzverif/vsched"
@@ -38,6 +39,8 @@ type wParams struct {
 	LatencyMs int    `json:"latency_ms,omitempty"`
 	Timeout   int    `json:"timeout,omitempty"` // seconds; 0 = default 20
 	Columns   int    `json:"columns,omitempty"`
+
+	FdLimit int   `json:"fdlimit,omitempty"` // RLIMIT_NOFILE during the execution (0 = unchanged)
 
 	Tree   string `json:"tree"`             // source tree recipe
 	DstPre string `json:"dstpre,omitempty"` // destination pre-population recipe
@@ -644,6 +647,12 @@ func runWorld(p wParams, cfg vs.Config, prefix, prefixN []int, extra func(w *wor
 	}
 	if cfg.MaxVirtual == 0 {
 		cfg.MaxVirtual = 3 * time.Hour
+	}
+	if p.FdLimit > 0 {
+		var old syscall.Rlimit
+		syscall.Getrlimit(syscall.RLIMIT_NOFILE, &old)
+		syscall.Setrlimit(syscall.RLIMIT_NOFILE, &syscall.Rlimit{Cur: uint64(p.FdLimit), Max: old.Max})
+		defer syscall.Setrlimit(syscall.RLIMIT_NOFILE, &old)
 	}
 	s := vs.Run(cfg, prefix, prefixN, func() {
 		w = buildWorld(p)
